@@ -128,11 +128,13 @@ ServeDone(w, hij) ==
   /\ UNCHANGED <<ready, wcount, mustStop, chan, lastUse, picked, cleanSel, stopState, stopIdx, clock, served>>
 
 (* release: lastUseTime is stamped BEFORE the lock is taken *)
-Stamp(w) ==
+StampAt(w, t) ==
   /\ wstate[w] = "closing"
-  /\ lastUse' = [lastUse EXCEPT ![w] = clock]
+  /\ lastUse' = [lastUse EXCEPT ![w] = t]
   /\ wstate' = [wstate EXCEPT ![w] = "stamped"]
   /\ UNCHANGED <<ready, wcount, mustStop, chan, wconn, cstate, picked, cleanSel, stopState, stopIdx, clock, served>>
+
+Stamp(w) == StampAt(w, clock)
 
 ReleaseOk(w) ==
   /\ LockFree /\ wstate[w] = "stamped" /\ ~mustStop
@@ -160,7 +162,8 @@ BSearch(rd, crit, lo, hi) ==
          IF lastUse[rd[mid]] < crit THEN BSearch(rd, crit, mid + 1, hi)
          ELSE BSearch(rd, crit, lo, mid - 1)
 
-CleanCount == BSearch(ready, clock - MaxIdle, 1, Len(ready))   \* number of workers to retire
+CleanCountAt(crit) == BSearch(ready, crit, 1, Len(ready))
+CleanCount == CleanCountAt(clock - MaxIdle)   \* number of workers to retire
 
 CleanSelectK(k) ==
   /\ LockFree /\ cleanSel = <<>>
